@@ -2985,3 +2985,7 @@ mod tests {
         }
     }
 }
+
+#[cfg(kani)]
+#[path = "/verif/kani/network_proofs.rs"]
+mod verif_proofs;
